@@ -237,255 +237,10 @@ __pr_infix(dexpr_t root)
 }
 
 
-static dexpr_t
-make_dexpr(dex_type_t type)
-{
-	dexpr_t res;
-
-	if ((res = calloc(1, sizeof(*res))) != NULL) {
-		res->type = type;
-	}
-	return res;
-}
-
-static dexpr_t
-dexpr_copy(const_dexpr_t src)
-{
-	dexpr_t res;
-
-	if ((res = calloc(1, sizeof(*res))) == NULL) {
-		return NULL;
-	}
-	/* otherwise start by (shallow) copying things */
-	memcpy(res, src, sizeof(*res));
-
-	/* deep copy anyone? */
-	switch (src->type) {
-	case DEX_CONJ:
-	case DEX_DISJ:
-		res->left = dexpr_copy(src->left);
-		res->right = dexpr_copy(src->right);
-		break;
-	case DEX_VAL:
-	case DEX_UNK:
-	default:
-		break;
-	}
-	return res;
-}
-
-static dexpr_t
-dexpr_copy_j(dexpr_t src)
-{
-/* copy SRC, but only if it's a junction (disjunction or conjunction) */
-	if (src->type == DEX_VAL) {
-		return (dexpr_t)src;
-	}
-	return dexpr_copy(src);
-}
-
 static void
-__dnf(dexpr_t root)
+dexpr_simplify(dexpr_t root __attribute__((unused)))
 {
-/* recursive __dnf'er */
-	switch (root->type) {
-	case DEX_CONJ: {
-		/* check if one of the children is a disjunction */
-		dex_type_t rlt = root->left->type;
-		dex_type_t rrt = root->right->type;
-
-		if (rlt == DEX_DISJ && rrt == DEX_DISJ) {
-			/* complexestest case
-			 * (a|b)&(c|d) -> (a&c)|(a&d)|(b&c)|(b&d) */
-			dexpr_t a;
-			dexpr_t b;
-			dexpr_t c;
-			dexpr_t d;
-
-			/* get the new idea of b and c */
-			a = root->left->left;
-			b = root->left->right;
-			c = root->right->left;
-			d = root->right->right;
-
-			/* now reuse what's possible */
-			root->type = DEX_DISJ;
-			root->left->type = DEX_CONJ;
-#if 0
-			/* silly assignment, a comes from left->left */
-			root->left->left = a;
-#endif	/* 0 */
-			root->left->right = c;
-
-			root->right->type = DEX_DISJ;
-			root->right->left = make_dexpr(DEX_CONJ);
-			root->right->left->left = dexpr_copy_j(a);
-			root->right->left->right = d;
-
-			root->right->right = make_dexpr(DEX_DISJ);
-			root->right->right->left = make_dexpr(DEX_CONJ);
-			root->right->right->left->left = b;
-			root->right->right->left->right = dexpr_copy_j(c);
-			/* right side, finalise the right branches with CONJ */
-			root->right->right->right = make_dexpr(DEX_CONJ);
-			root->right->right->right->left = dexpr_copy_j(b);
-			root->right->right->right->right = dexpr_copy_j(d);
-
-		} else if (rlt == DEX_DISJ || rrt == DEX_DISJ) {
-			/* ok'ish case
-			 * a&(b|c) -> a&b|a&c
-			 * the other case gets normalised: (a|b)&c -> c&(a|b) */
-			dexpr_t a;
-			dexpr_t b;
-			dexpr_t c;
-
-			/* put the non-DISJ case left */
-			if ((a = root->left)->type == DEX_DISJ) {
-				a = root->right;
-				root->right = root->left;
-			}
-			/* get the new idea of b and c */
-			b = root->right->left;
-			c = root->right->right;
-
-			/* turn into disjoint */
-			root->type = DEX_DISJ;
-
-			/* inflate left branch */
-			root->left = make_dexpr(DEX_CONJ);
-			root->left->left = a;
-			root->left->right = b;
-
-			/* rearrange this node now, reuse the right disjoint */
-			root->right->type = DEX_CONJ;
-			root->right->left = a;
-			root->right->right = c;
-		}
-		/* fallthrough! */
-	}
-	case DEX_DISJ:
-		/* nothing to be done other than a quick descent */
-		__dnf(root->left);
-		__dnf(root->right);
-
-		/* upon ascent fixup double OR's */
-		if (root->left->type == DEX_DISJ &&
-		    root->right->type == DEX_DISJ) {
-			/*      |             |
-			 *    /   \          / \
-			 *   |     |    ~>  a   |
-			 *  / \   / \          / \
-			 * a   b c   d        b   |
-			 *                       / \
-			 *                      c   d */
-			dexpr_t i = root->left;
-			dexpr_t j = root->right;
-			dexpr_t a = i->left;
-			dexpr_t b = i->right;
-			dexpr_t c = j->left;
-
-			root->left = a;
-			root->right = i;
-			i->left = b;
-			i->right = j;
-			j->left = c;
-
-		} else if (root->left->type == DEX_DISJ) {
-			/*     |           |
-			 *    / \         / \
-			 *   |   c   ~>  a   |
-			 *  / \             / \
-			 * a   b           b   c */
-			dexpr_t i = root->left;
-			dexpr_t c = root->right;
-			dexpr_t a = i->left;
-			dexpr_t b = i->right;
-
-			root->left = a;
-			root->right = i;
-			i->left = b;
-			i->right = c;
-		}
-		break;
-
-	case DEX_VAL:
-	case DEX_UNK:
-	default:
-		/* can't do anything to get the DNF going */
-		break;
-	}
-	return;
-}
-
-static void
-__nega_kv(struct dexkv_s *kv)
-{
-/* assume the parent dexpr has the nega flag set, negate KV */
-	kv->op = ~kv->op;
-	return;
-}
-
-static void
-__denega(dexpr_t root)
-{
-	dexpr_t left;
-	dexpr_t right;
-
-	if (root->nega) {
-		/* negate */
-		root->nega = 0;
-
-		switch (root->type) {
-		case DEX_CONJ:
-			/* !(a&b) -> !a | !b */
-			root->type = DEX_DISJ;
-			break;
-		case DEX_DISJ:
-			/* !(a|b) -> !a & !b */
-			root->type = DEX_DISJ;
-			break;
-		case DEX_VAL:
-			__nega_kv(root->kv);
-			/* fallthrough */
-		case DEX_UNK:
-		default:
-			return;
-		}
-
-		if ((left = root->left) != NULL) {
-			left->nega = ~left->nega;
-		}
-		if ((right = root->right) != NULL) {
-			right->nega = ~right->nega;
-		}
-	} else {
-		switch (root->type) {
-		case DEX_CONJ:
-		case DEX_DISJ:
-			left = root->left;
-			right = root->right;
-			break;
-		case DEX_VAL:
-		case DEX_UNK:
-		default:
-			return;
-		}
-	}
-	/* descend */
-	if (left != NULL) {
-		__denega(left);
-	}
-	if (right != NULL) {
-		__denega(right);
-	}
-	return;
-}
-
-static void
-dexpr_simplify(dexpr_t root)
-{
-	__denega(root);
-	__dnf(root);
+/* nothing to do, dexpr_matches_p() evaluates the tree as it stands */
 	return;
 }
 
@@ -576,22 +331,22 @@ dexkv_matches_p(const_dexkv_t dkv, struct dt_dt_s d)
 	/* now do the actual comparison */
 	switch (dkv->op) {
 	case OP_EQ:
-		res = dkv->s == cmp;
+		res = cmp == dkv->s;
 		break;
 	case OP_LT:
-		res = dkv->s < cmp;
+		res = cmp < dkv->s;
 		break;
 	case OP_LE:
-		res = dkv->s <= cmp;
+		res = cmp <= dkv->s;
 		break;
 	case OP_GT:
-		res = dkv->s > cmp;
+		res = cmp > dkv->s;
 		break;
 	case OP_GE:
-		res = dkv->s >= cmp;
+		res = cmp >= dkv->s;
 		break;
 	case OP_NE:
-		res = dkv->s != cmp;
+		res = cmp != dkv->s;
 		break;
 	case OP_TRUE:
 		res = true;
@@ -604,41 +359,33 @@ dexkv_matches_p(const_dexkv_t dkv, struct dt_dt_s d)
 	return res;
 }
 
-static bool
-__conj_matches_p(const_dexpr_t dex, struct dt_dt_s d)
-{
-	const_dexpr_t a;
-
-	for (a = dex; a->type == DEX_CONJ; a = a->right) {
-		if (!dexkv_matches_p(a->left->kv, d)) {
-			return false;
-		}
-	}
-	/* rightmost cell might be a DEX_VAL */
-	return dexkv_matches_p(a->kv, d);
-}
-
-static bool
-__disj_matches_p(const_dexpr_t dex, struct dt_dt_s d)
-{
-	const_dexpr_t o;
-
-	for (o = dex; o->type == DEX_DISJ; o = o->right) {
-		if (__conj_matches_p(o->left, d)) {
-			return true;
-		}
-	}
-	/* rightmost cell may be a DEX_VAL */
-	return __conj_matches_p(o, d);
-}
-
 static __attribute__((unused)) bool
 dexpr_matches_p(const_dexpr_t dex, struct dt_dt_s d)
 {
-	return __disj_matches_p(dex, d);
+/* plain recursive evaluation, negation flags are honoured on the way up */
+	bool res;
+
+	switch (dex->type) {
+	case DEX_VAL:
+		res = dexkv_matches_p(dex->kv, d);
+		break;
+	case DEX_CONJ:
+		res = dexpr_matches_p(dex->left, d) &&
+			dexpr_matches_p(dex->right, d);
+		break;
+	case DEX_DISJ:
+		res = dexpr_matches_p(dex->left, d) ||
+			dexpr_matches_p(dex->right, d);
+		break;
+	case DEX_UNK:
+	default:
+		res = false;
+		break;
+	}
+	return dex->nega ? !res : res;
 }
 
-
+
 #if defined STANDALONE
 const char *prog = "dexpr";
 
